@@ -581,4 +581,43 @@ def c03_10(c: Ctx) -> None:
     c04_3(c)
 
 
+@ob('C03.11', 'ORD', 'in process_event no eviction from the history happens on a path that afterwards reaches the upward completion walk, when the walk finds ancestors through the '
+    'history: an event whose own handlers are done reads as completed while its children still run, so an eviction pass between the event\'s own mark and the walk can remove the very '
+    'parent the walk is about to look up — the walk stops, the parent\'s signal is never set and awaiting it hangs')
+def c03_11(c: Ctx) -> None:
+    from sa.cfg import search
+
+    pe = c.unit(SVC, 'EventBus.process_event')
+    g = c.cfg(pe)
+    walks = [n for n in own_nodes(pe.node) if isinstance(n, ast.While) and 'event_parent_id' in U(n.test)]
+    if not walks or not any(isinstance(n, ast.Attribute) and n.attr == 'event_history' for n in ast.walk(walks[0])):
+        c.ok(where(pe), 'no history-based ancestor lookup in process_event')
+        return
+    inside = {id(x) for x in ast.walk(walks[0])}
+
+    def evicts(u: Unit) -> bool:
+        return any(w.attr == 'event_history' and w.how in ('del', 'pop', 'popitem', 'clear') for w in c.cg.writes.get(u.key, []))
+
+    evictors = {u.key for u in c.prog.units.values() if evicts(u)}
+    resolved = {id(call): r for call, r in c.cg.edges.get(pe.key, []) if isinstance(r, Unit)}
+    sites = []
+    for n in g.live_nodes():
+        if n.ast is None or id(n.ast) in inside:
+            continue
+        for x in q.node_calls(n):
+            if True:
+                t = resolved.get(id(x))
+                hit = (t.key in evictors or any(k in evictors for k in c.cg.reach([t]))) if t is not None else call_name(x) == 'cleanup_event_history'
+                if hit:
+                    sites.append((n, x))
+    c.floor(len(sites), 1, 'eviction call in process_event')
+    for n, x in sites:
+        p = search([(n, ())], is_target=lambda m, dd: m is not n and m.ast is not None and id(m.ast) in inside, edge_ok=lambda m, ed, dd: None if ed.is_exc else dd)
+        if p is None:
+            c.ok(where(pe, x), f'`{U(x)[:60]}` is not followed by the upward walk')
+        else:
+            c.fail(pe, f'history eviction `{U(x)[:60]}` precedes the upward completion walk', 'a parent whose own handlers are done (status completed) but whose children are still running is evicted '
+                   'before the walk looks it up: the walk stops, the parent never completes and awaiting it hangs', node=x, witness=c.path(n, p))
+
+
 OBLIGATIONS = ob.obs
